@@ -295,6 +295,21 @@ func init() {
 		})
 		return
 	}
+	extraOps["gb.rt"] = func(a []sexp) (out string) {
+		withRegistry(decRegistry(a[0]), func() {
+			res := readGenBank([]byte(decRecord(a[1]).String()))
+			if !res.ok {
+				out = "ERR"
+				return
+			}
+			recs := make([]string, len(res.records))
+			for i, r := range res.records {
+				recs[i] = encRecord(r)
+			}
+			out = encList(recs)
+		})
+		return
+	}
 	extraOps["gb.qualifier"] = func(a []sexp) (out string) {
 		withRegistry(decRegistry(a[0]), func() {
 			state := pars.FromBytes(append([]byte(nil), decBytes(a[2])...))
